@@ -124,6 +124,45 @@ def aff6(A) -> tuple:
     return tuple(A)[:6]
 
 
+# user-defined CRSs a raster may carry: no authority code; the first ones are what PROJ's identification calls "probably EPSG:xxxx" (same projection, datum-less ellipsoid)
+CUSTOM_RASTER_CRS = [spec for spec, _, _ in LOOKALIKES] + ["+proj=aea +lat_0=-15 +lon_0=125 +lat_1=-18 +lat_2=-36 +x_0=0 +y_0=0 +ellps=GRS80 +units=m +no_defs",
+                                                             "+proj=utm +zone=55 +south +ellps=GRS80 +units=m +no_defs"]
+
+
+def crs_origin(spec: str, r: float):
+    """Where to put a small raster in CRS `spec` (top-left world coordinates): inside the CRS's sensible range."""
+    for sp, _, (lon0, lat0, lon1, lat1) in LOOKALIKES:
+        if sp == spec:
+            x, y = transformer("EPSG:4326", spec).transform((lon0 + lon1) / 2, (lat0 + lat1) / 2)
+            return round(x / r) * r, round(y / r) * r
+    if spec.startswith("+proj=utm"):
+        return 400_000.0, 6_000_000.0
+    if spec.startswith("+proj=aea"):
+        return 100_000.0, -2_000_000.0
+    return 100 * r, 500 * r
+
+
+def crs_read_back_ok(rio_crs, spec: str, x: float, y: float) -> bool:
+    """Does the CRS found in a file denote what the array was tagged with?  Authority CRSs must come back with their code; any CRS must have the same ellipsoid and must put the
+    map point (x, y) at the same longitude/latitude (1e-7 degrees) - a datum-less definition replaced by a "close" registered CRS moves points by tens to hundreds of metres."""
+    import pyproj
+
+    if rio_crs is None:
+        return False
+    want = pyproj.CRS.from_user_input(spec)
+    got = pyproj.CRS.from_wkt(rio_crs.to_wkt())
+    if spec.upper().startswith("EPSG:") and rio_crs.to_epsg() != int(spec.split(":")[1]):
+        return False
+    ew, eg = want.ellipsoid, got.ellipsoid
+    if ew is not None and eg is not None and (abs(ew.semi_major_metre - eg.semi_major_metre) > 1e-6 or abs((ew.inverse_flattening or 0) - (eg.inverse_flattening or 0)) > 1e-9):
+        return False
+    if (want.to_epsg(100) is None) != (got.to_epsg(100) is None):  # an authority-less definition stays authority-less (and vice versa)
+        return False
+    p1 = transformer(want.to_wkt(), "EPSG:4326").transform(x, y)
+    p2 = transformer(got.to_wkt(), "EPSG:4326").transform(x, y)
+    return bool(all(math.isfinite(v) for v in (*p1, *p2)) and max(abs(p1[0] - p2[0]), abs(p1[1] - p2[1])) <= 1e-7)
+
+
 WARM = {"views": 0, "plain": 0}
 
 
